@@ -9,6 +9,7 @@ import (
 	"crypto/rand"
 	"crypto/tls"
 	"crypto/x509"
+	"crypto/x509/pkix"
 	"encoding/base64"
 	"encoding/json"
 	"encoding/pem"
@@ -29,6 +30,7 @@ import (
 	"github.com/smallstep/certificates/authority"
 	"github.com/smallstep/certificates/authority/config"
 	"github.com/smallstep/certificates/authority/provisioner"
+	"github.com/smallstep/certificates/db"
 	"verif/harness/cmd/c02/ss"
 	"verif/harness/fixture"
 )
@@ -55,7 +57,9 @@ func closeEnvs() {
 
 func newEnv(hooks *ss.Hooks, crl bool) *env {
 	yes := true
-	o := fixture.Opts{SSH: true, WrapDB: ss.Wrap(hooks), JWKClaims: &provisioner.Claims{EnableSSHCA: &yes},
+	// allowRenewalAfterExpiry: expired certificates stay renewable (that is what the renew-token route is
+	// for), so "revoked" has to keep blocking them after they expired
+	o := fixture.Opts{SSH: true, WrapDB: ss.Wrap(hooks), JWKClaims: &provisioner.Claims{EnableSSHCA: &yes, AllowRenewalAfterExpiry: &yes},
 		Provisioners: provisioner.List{&provisioner.SSHPOP{Type: "SSHPOP", Name: "sshpop"}}}
 	if crl {
 		o.CRL = &config.CRLConfig{Enabled: true, GenerateOnRevoke: true}
@@ -84,6 +88,29 @@ func (e *env) issueX509() *x509Cert {
 	}
 	chain := must(e.ca.SignX509(tok, csr, provisioner.SignOptions{}))
 	return &x509Cert{crt: chain[0], key: key}
+}
+
+// expiredX509 makes a certificate of this CA as provisioner "jwk" would have issued it long ago: signed by
+// the intermediate, carrying the provisioner extension, NotAfter `ago` in the past, and present in the CA's
+// certificate table (put there through the real db API).
+func (e *env) expiredX509(ago time.Duration) *x509Cert {
+	key := must(ecdsa.GenerateKey(elliptic.P256(), rand.Reader))
+	cn := "old" + must(randutil.Hex(8)) + ".example.com"
+	ext := must((&provisioner.Extension{Type: provisioner.TypeJWK, Name: "jwk", CredentialID: e.ca.JWK.KeyID}).ToExtension())
+	na := time.Now().Truncate(time.Second).Add(-ago)
+	tpl := &x509.Certificate{SerialNumber: new(big.Int).SetBytes(must(randutil.Salt(14))), Subject: pkix.Name{CommonName: cn}, DNSNames: []string{cn},
+		NotBefore: na.Add(-24 * time.Hour), NotAfter: na, KeyUsage: x509.KeyUsageDigitalSignature,
+		ExtKeyUsage: []x509.ExtKeyUsage{x509.ExtKeyUsageServerAuth, x509.ExtKeyUsageClientAuth}, ExtraExtensions: []pkix.Extension{ext}}
+	der := must(x509.CreateCertificate(rand.Reader, tpl, e.ca.MiniCA.Intermediate, &key.PublicKey, e.ca.MiniCA.Signer))
+	crt := must(x509.ParseCertificate(der))
+	st, ok := e.ca.DB.(db.CertificateStorer)
+	if !ok {
+		panic("database does not store certificates")
+	}
+	if err := st.StoreCertificate(crt); err != nil {
+		panic(err)
+	}
+	return &x509Cert{crt: crt, key: key}
 }
 
 func (e *env) issueSSH() *sshCert {
